@@ -16,6 +16,8 @@ FRESH = """
 import sys, json
 sys.path.insert(0, %r)
 from bounded import pipeline as P
+from bounded.c19 import like_the_server
+like_the_server()
 kind, body = sys.argv[1], bytes.fromhex(sys.argv[2])
 o = P.observe(kind, body)
 print(json.dumps({'status': o.get('status'), 'code': o.get('code'), 'update': o.get('update'), 'marker': o.get('marker'), 'rib': o.get('rib')}, sort_keys=True))
@@ -32,7 +34,17 @@ def fresh(kind, body):
     return json.loads(p.stdout.strip().splitlines()[-1])
 
 
+def like_the_server():
+    """application/server.py copies exabgp.cache.attributes (default true) into Attribute.caching at start-up: the
+    decode caches are ON in a running ExaBGP, and off by class default (which is all the unit tests see)"""
+    from exabgp.bgp.message.update.attribute import Attribute
+    from exabgp.environment import getenv
+
+    Attribute.caching = getenv().cache.attributes
+
+
 def in_sequence(seq):
+    like_the_server()
     out = []
     for kind, body in seq:
         o = P.observe(kind, body)
@@ -40,13 +52,23 @@ def in_sequence(seq):
     return out
 
 
+def aigp(metric):
+    return W.attr(0x80, 26, bytes([1, 0, 11]) + metric.to_bytes(8, 'big'))
+
+
 def build_sequence(rnd, n):
     seq = []
     blocks = []
     for _ in range(n):
-        kind = rnd.choice(['ebgp4', 'ibgp2'])
-        if blocks and rnd.random() < 0.5:
-            # the same attribute block again, on the same or on the OTHER kind of session (near-identical repeats)
+        kind = rnd.choice(['ebgp4', 'ibgp2', 'ibgp4-aigp', 'ibgp4-noaigp'])
+        if seq and rnd.random() < 0.35:
+            # the block of the message just before, byte for byte (AttributeCollection.unpack remembers the last block
+            # it decoded), on the same session or on another one
+            attrs = last
+            if rnd.random() < 0.6:
+                kind = seq[-1][0]
+        elif blocks and rnd.random() < 0.5:
+            # the same attribute block again, on the same or on ANOTHER kind of session (near-identical repeats)
             attrs = rnd.choice(blocks)
         else:
             asn4 = rnd.random() < 0.5
@@ -55,11 +77,17 @@ def build_sequence(rnd, n):
                 attrs += W.aggregator(65010, '192.0.2.9', asn4)
             if rnd.random() < 0.5:
                 attrs += W.med(rnd.randint(0, 9))
+            if rnd.random() < 0.4:
+                # the same few AIGP values in blocks that differ elsewhere
+                attrs += aigp(rnd.choice([10, 20]))
             if rnd.random() < 0.3:
                 attrs += W.attr(0x80, 4, b'\x00\x00')  # malformed MED: treat-as-withdraw
             blocks.append(attrs)
         nlri = W.prefix4(f'10.{rnd.randint(0, 3)}.0.0', 16)
-        seq.append((kind, W.update_body(b'', attrs, nlri)))
+        # the same block travels with and without withdrawn routes (the JSON encoder renders attributes differently then)
+        wd = W.prefix4(f'172.16.{rnd.randint(0, 3)}.0', 24) if rnd.random() < 0.4 else b''
+        seq.append((kind, W.update_body(wd, attrs, nlri)))
+        last = attrs
     return seq
 
 
@@ -75,7 +103,7 @@ def sequence_vs_fresh(tier, seed):
     for k, ((kind, body), a, b) in enumerate(zip(seq, got, alone)):
         if a != b:
             fails.append({'what': f'message {k} of the sequence decodes differently than alone in a fresh process', 'input': {'index': k, 'sequence': [(kd, bd.hex()) for kd, bd in seq[: k + 1]]}, 'in_sequence': json.dumps(a)[:500], 'fresh': json.dumps(b)[:500]})
-    return {'evaluations': len(seq), 'distinct_nontrivial': len({(k, b) for k, b in seq}), 'bound': f'one sequence of {n} UPDATEs over two sessions (4-byte eBGP / 2-byte iBGP) with repeated and cross-session attribute blocks and malformed repeats; each compared with a fresh interpreter', 'rule': 'one case = one message position in the sequence; distinct = distinct (session, bytes)', 'samples': [{'kind': k, 'body': b.hex()[:120]} for k, b in seq[:3]], 'failures': fails[:10]}
+    return {'evaluations': len(seq), 'distinct_nontrivial': len({(k, b) for k, b in seq}), 'bound': f'one sequence of {n} UPDATEs over four sessions (4-byte eBGP, 2-byte iBGP, iBGP with and without AIGP) with repeated and cross-session attribute blocks, shared AIGP values in blocks that differ elsewhere, malformed repeats, with and without withdrawn routes; decode caches on as the server sets them; each message compared with a fresh interpreter', 'rule': 'one case = one message position in the sequence; distinct = distinct (session, bytes)', 'samples': [{'kind': k, 'body': b.hex()[:120]} for k, b in seq[:3]], 'failures': fails[:10]}
 
 
 @replayer('C19', 'sequence-vs-fresh')
